@@ -271,6 +271,16 @@ Definition spell_seeded (c : wcfg) (pf : word -> list bool * list bool) (pw pc :
                         (seed : N) (ws : list word) : option (list word) :=
   option_map fst (spell_words c pf pw pc ws (seed_from_u64 seed)).
 
+(** what corrupt_spelling may do with one word: nothing, or the end of a chain of 1 .. max 1 |w| calls
+    of the relational model from the empty exclusion set, dropped when it became empty *)
+Definition word_result (c : wcfg) (w : word) (o : option word) : Prop :=
+  o = Some w \/
+  exists n w' ex', 1 <= n <= Nat.max 1 (length w) /\ chain (erase c) n (w, []) (w', ex') /\
+                   o = match concat w' with [] => None | _ => Some w' end.
+
+Fixpoint keep_some {A} (l : list (option A)) : list A :=
+  match l with [] => [] | Some x :: r => x :: keep_some r | None :: r => keep_some r end.
+
 (** * Well-formed weights: what makes [WeightedIndex::new] succeed and never return a zero weight.
     [fcanon]: a genuine non-negative finite binary64 value in the canonical form the harness sends
     (2^52 <= m < 2^53 and -1074 <= e <= 971, or m < 2^52 and e = -1074). *)
